@@ -824,9 +824,251 @@ def w_timing(task):
     return out
 
 
+# ================================================================================================ part C
+def enable_tag(desc):
+    return ",".join(desc[k] for k in ("edge", "reset", "content", "place", "wrapper"))
+
+
+def build_enable(desc):
+    """-> (top module, dict of signals)"""
+    from amaranth.hdl import Module, ClockDomain, Signal, Print, Format, Assert, Assume, Cat, EnableInserter, ResetInserter
+    m = Module()
+    cd = ClockDomain("sync", clk_edge=desc["edge"], async_reset=desc["reset"] == "async")
+    m.domains.sync = cd
+    d = Signal(2, name="d")
+    en1, en2, srst = Signal(name="en1"), Signal(name="en2"), Signal(name="srst")
+    w = Signal(2, name="w")
+    r = Signal(2, name="r")
+
+    def add_w(mod):
+        mod.d.sync += w.eq(w + 1)
+
+    def add_checker(mod):
+        if "P" in desc["content"]:
+            mod.d.sync += Print(Format("Q:{}:{}:{}", w, d, r))
+            with mod.If(d[0]):
+                mod.d.sync += Print(Format("R:{}", w))
+        if "A" in desc["content"]:
+            mod.d.sync += Assert((w != 2) | d[1], Format("A:{}:{}", w, d))
+            with mod.If(d[0]):
+                mod.d.sync += Assume(w != 1, Format("U:{}", w))
+        if "R" in desc["content"]:
+            mod.d.sync += r.eq(r + 1)
+
+    def wrap(x):
+        wr = desc["wrapper"]
+        if wr == "none":
+            return x
+        if wr == "rst":
+            return ResetInserter(srst)(x)
+        if wr == "en":
+            return EnableInserter(en1)(x)
+        if wr == "en_dict":
+            return EnableInserter({"sync": en1})(x)
+        if wr == "en_en":
+            return EnableInserter(en1)(EnableInserter(en2)(x))
+        if wr == "en_rst":
+            return EnableInserter(en1)(ResetInserter(srst)(x))
+        raise ValueError(wr)
+
+    place = desc["place"]
+    if place == "sub":
+        chk = Module()
+        add_checker(chk)
+        add_w(m)
+        m.submodules.chk = wrap(chk)
+    elif place in ("subsub", "subsub_w"):
+        mid, chk = Module(), Module()
+        add_checker(chk)
+        mid.submodules.chk = chk
+        add_w(mid if place == "subsub_w" else m)
+        m.submodules.mid = wrap(mid)
+    elif place == "same":
+        x = Module()
+        add_w(x)
+        add_checker(x)
+        m.submodules.x = wrap(x)
+    else:
+        raise ValueError(place)
+    sigs = {"d": d, "en1": en1, "en2": en2, "srst": srst}
+    names = G.enable_inputs(desc)
+    return m, {"inputs": Cat(*[sigs[n] for n in names]), "clk": cd.clk, "names": names}
+
+
+def unpack_enable_inputs(names, packed):
+    out, off = {}, 0
+    for n in names:
+        wdt = 2 if n == "d" else 1
+        out[n] = (packed >> off) & ((1 << wdt) - 1)
+        off += wdt
+    return out
+
+
+class EnRunner:
+    """action sequences [(packed inputs, toggle clock?)] on one design; one Simulator reused through reset() unless fresh"""
+    def __init__(self, frag, sigs, fresh=False):
+        self.frag, self.sigs, self.fresh = frag, sigs, fresh
+        self.sim = None
+        self.seq = ()
+
+    async def _tb(self, ctx):
+        buf, rec = self.buf, self.rec
+        self.initial = buf.getvalue()
+        level = 0
+        for i, (iv, tg) in enumerate(self.seq):
+            self.step, self.phase = i, "input"
+            a = buf.tell()
+            ctx.set(self.sigs["inputs"], iv)
+            b = buf.tell()
+            self.phase = "clock"
+            if tg:
+                level ^= 1
+                ctx.set(self.sigs["clk"], level)
+            full = buf.getvalue()[a:]
+            rec.append((full[:b - a], full[b - a:]))
+        self.step, self.phase = len(self.seq), "done"
+
+    def run(self, seq):
+        from amaranth.sim import Simulator
+        self.seq, self.buf, self.rec = seq, io.StringIO(), []
+        self.step, self.phase, self.initial = -1, "start", None
+        if self.fresh or self.sim is None:
+            self.sim = Simulator(self.frag)
+            self.sim.add_testbench(self._tb)
+        else:
+            self.sim.reset()
+        exc = None
+        with contextlib.redirect_stdout(self.buf):
+            try:
+                self.sim.run()
+            except AssertionError as e:
+                exc = e
+        partial = None
+        if exc is not None:
+            consumed = len(self.initial or "") + sum(len(a) + len(b) for a, b in self.rec)
+            partial = self.buf.getvalue()[consumed:]
+        return self.rec, exc, partial
+
+
+def check_enable_sequence(desc, runner, seq):
+    """-> (verdict | None, stopped, model state after the sequence, info of the last step)"""
+    model = R.EnableModel(desc)
+    names = G.enable_inputs(desc)
+    rec, exc, partial = runner.run(seq)
+    exp = None
+    if runner.initial:
+        return ("output-before-any-edge", "", -1, f"printed {runner.initial!r} before the first action"), False, None, None
+    for i, (iv, tg) in enumerate(seq):
+        inp = unpack_enable_inputs(names, iv)
+        exp = model.step(inp, tg)
+        raised = exc is not None and runner.step == i
+        if i >= len(rec) and not raised:
+            return ("testbench-stopped", "", i, "the testbench did not reach this step"), False, None, exp
+        cause = ("enabled-edge" if exp["enabled"] else "disabled-edge") if exp["edge"] else ("inactive-edge" if tg else "no-edge")
+        where = f"step {i} (inputs {inp}, clock toggled: {bool(tg)}, before the edge {exp['pre']}, active edge: {exp['edge']}, " \
+                f"all inserted enables high: {exp['enabled']})"
+        if raised:
+            if runner.phase == "input" or not exp["fails"]:
+                return ("spurious-stop", cause + ":" + _leaf_of(str(exc)), i,
+                        f"{where}: run() raised AssertionError({exc}) but no ACTIVE Assert/Assume has a zero test"), False, None, exp
+            if not any(str(exc).endswith(t) for t in exp["fails"]):
+                return ("wrong-message", _leaf_of(str(exc)), i, f"{where}: AssertionError({exc}), failing statements {exp['fails']}"), False, None, exp
+            extra = _multiset_minus(partial.splitlines(), exp["prints"])
+            if extra:
+                return ("print-mismatch", cause + ":extra=" + ",".join(_leaf_of(t) for t in extra), i,
+                        f"{where}: printed {partial.splitlines()} before stopping, enabled prints {exp['prints']}"), False, None, exp
+            return None, True, None, exp
+        if exp["fails"]:
+            return ("missing-stop", cause + ":" + ",".join(_leaf_of(t) for t in exp["fails"]), i,
+                    f"{where}: {exp['fails']} active with a zero test but run() did not raise"), False, None, exp
+        out_in, out_clk = rec[i]
+        got = (out_in + out_clk).splitlines()
+        if out_in or sorted(got) != sorted(exp["prints"]):
+            extra, missing = _multiset_minus(got, exp["prints"]), _multiset_minus(exp["prints"], got)
+            return ("print-mismatch", cause + ":extra=" + ",".join(_leaf_of(t) for t in extra) + ":missing=" +
+                    ",".join(_leaf_of(t) for t in missing), i, f"{where}: printed {got}, expected {exp['prints']}"), False, None, exp
+    if exc is not None:
+        return ("spurious-stop", "after-last-step", len(seq), f"AssertionError {exc} after the last step"), False, None, exp
+    return None, False, model.state(), exp
+
+
+def w_enable(task):
+    """BFS over the reference states (w, r, clock level): every (state, action) pair is executed on the real simulator by
+    replaying the state's shortest action path from reset followed by the action (each one a separate Simulator.run())"""
+    from ..sim.driver import elaborate
+    descs = task
+    out = _new()
+    warnings.simplefilter("ignore")
+    for desc in descs:
+        tag = enable_tag(desc)
+        m, sigs = build_enable(desc)
+        frag = elaborate(m)
+        reuse, fresh = EnRunner(frag, sigs), EnRunner(frag, sigs, fresh=True)
+        nbits = sum(2 if n == "d" else 1 for n in sigs["names"])
+        actions = [(iv, tg) for iv in range(1 << nbits) for tg in (0, 1)]
+        root = R.EnableModel(desc).state()
+        path = {root: ()}
+        frontier = [root]
+        confirmations = 0
+        while frontier:
+            nxt = []
+            for st in frontier:
+                for a in actions:
+                    seq = path[st] + (a,)
+                    res, stopped, st2, exp = check_enable_sequence(desc, reuse, seq)
+                    _add(out, "evaluations")
+                    _add(out, "enable_transitions")
+                    if exp is not None:
+                        if exp["edge"] and exp["enabled"]:
+                            _add(out, "enable_enabled_edges")
+                            if exp["reset"]:
+                                _add(out, "enable_edges_with_inserted_reset")
+                        elif exp["edge"]:
+                            _add(out, "enable_disabled_edges")
+                            if exp["would_print"]:
+                                _add(out, "enable_disabled_edges_would_print")
+                            if exp["would_fail"]:
+                                _add(out, "enable_disabled_edges_would_fail")
+                        if stopped:
+                            _add(out, "enable_stops")
+                    if res is not None:
+                        _add(out, "enable_violating_transitions")
+                        pre_sig = f"enable:{tag}:{res[0]}:{res[1]}"
+                        if pre_sig in out["_sigs"] or confirmations >= MAX_CONFIRM:
+                            continue
+                        confirmations += 1
+                        res2, _s, _m, _e = check_enable_sequence(desc, fresh, seq)
+                        if res2 is None:
+                            res2 = ("reused-simulator-differs", res[0], res[2], f"after Simulator.reset(): {res[3]}; fresh simulator conforms")
+                        kind, detail, step, why = res2
+                        _viol(out, f"enable:{tag}:{kind}:{detail}", f"design [{tag}], actions (packed inputs {sigs['names']}, toggle) "
+                              f"{list(seq[:step + 1])}: {why}", {"kind": "enable", "desc": desc, "seq": [list(x) for x in seq[:step + 1]]})
+                    elif not stopped and st2 not in path:
+                        path[st2] = seq
+                        nxt.append(st2)
+            frontier = nxt
+        _add(out, "enable_designs")
+        _add(out, "enable_states", len(path))
+        _add(out, "distinct_nontrivial", 1 if len(path) > 1 else 0)
+        # the reused simulator against a fresh one on the longest paths
+        for st in sorted(path, key=lambda k: -len(path[k]))[:2]:
+            a, b = reuse.run(path[st]), fresh.run(path[st])
+            if [(x, sorted(y.splitlines())) for x, y in a[0]] != [(x, sorted(y.splitlines())) for x, y in b[0]] or (a[1] is None) != (b[1] is None):
+                _viol(out, f"enable:{tag}:reused-simulator-differs:observation", f"design [{tag}]: path {list(path[st])} observed differently "
+                      "after Simulator.reset() and on a fresh Simulator", {"kind": "enable", "desc": desc, "seq": [list(x) for x in path[st]]})
+            _add(out, "enable_paths_validated_on_fresh_simulator")
+        if not out["samples"]:
+            deepest = max(path, key=lambda k: len(path[k]))
+            out["samples"].append({"part": "inserted-enable", "design": tag, "inputs": sigs["names"], "reference_states": len(path),
+                                   "actions(packed_inputs,toggle)": [list(x) for x in path[deepest]],
+                                   "observed_output_per_step": [b for _a, b in reuse.run(path[deepest])[0]]})
+    del out["_sigs"]
+    return out
+
+
 # ================================================================================================ driver
 def _dispatch(t):
-    return {"format": w_format, "timing": w_timing, "printargs": w_printargs}[t[0]](t[1])
+    return {"format": w_format, "timing": w_timing, "printargs": w_printargs, "enable": w_enable}[t[0]](t[1])
 
 
 def format_tasks(rep):
@@ -887,7 +1129,9 @@ def run(rep):
         rep.require(not R.python_accepts(s) and not R.grammar_accepts(s, 8, False), f"malformed specification {s!r} is not invalid")
     pcases = G.print_cases(rep.tier)
     ptasks = [("printargs", (ch, G.PRINT_VALUES), rep.tier) for ch in chunks(pcases, 240)]
-    tasks = rotate(ttasks + ftasks + ptasks, rep.seed)
+    edescs = G.enable_descs(rep.tier)
+    etasks = [("enable", ch, rep.tier) for ch in chunks(edescs, 8)]
+    tasks = rotate(ttasks + ftasks + ptasks + etasks, rep.seed)
     walls = {}
     test_classes = set()
     by_part = {}
@@ -918,7 +1162,12 @@ def run(rep):
                "message of the failing Assert == Python format(). Print arguments: every tuple of 1-2 arguments over 13 kinds (Amaranth "
                "values u4 / s4 / u1 / a-b, two Format objects, plain str incl. braces, plain int; 3 arguments over 6 kinds quick / all "
                "thorough) x 11 sep x 12 end (defaults, '', ', ', newline, strings with { } {{ }} {} {0}): construction must not raise "
-               "and the text == Python print(*rendered, sep, end) for 4 value triples. Part B: control-flow programs (12 forms, nesting depth <= 2, every hole "
+               "and the text == Python print(*rendered, sep, end) for 4 value triples. Part C: 384 designs = {rising, falling edge} x {sync, async domain reset} x checker {Print / Assert+Assume / both / Print + "
+               "register} x placement {submodule, sub-submodule, sub-submodule with the watched register inside the wrapper, same "
+               "fragment} x wrapper {none, ResetInserter, EnableInserter(en), EnableInserter({sync: en}), two nested EnableInserters, "
+               "EnableInserter around ResetInserter}: BFS over the reference states, every (state, action = data input x enables x "
+               "inserted reset x clock toggle) pair executed on the real simulator: statements act exactly at active edges with every "
+               "inserted enable high; an inserted reset never changes their activity. Part B: control-flow programs (12 forms, nesting depth <= 2, every hole "
                "holds Print/Assert/Cover/Assume/Print; tests and If conditions include 2-3 bit unsigned / signed values taken directly from "
                "an input, registers, slices and expressions: pass iff NON-ZERO) in a rising- and a falling-edge domain (+3 designs with "
                "an asynchronous reset, +24 asynchronous-reset designs (rising / falling edge) whose statements sit in a fragment without "
@@ -949,6 +1198,10 @@ def run(rep):
     missing = sorted(k for k, ok in multibit.items() if not ok)
     rep.require(not guards or not missing, f"multi-bit tests never met in a conforming step: {missing}")
     rep.setcov("multibit_test_classes_seen", sorted(c for c in test_classes if c.split(":")[1] in G.MULTIBIT))
+    for key in ("enable_enabled_edges", "enable_disabled_edges", "enable_disabled_edges_would_print", "enable_disabled_edges_would_fail",
+                "enable_edges_with_inserted_reset", "enable_stops"):
+        rep.require(not guards or rep.cov.get(key, 0) > 0, f"{key} never exercised")
+    rep.require(not guards or rep.cov.get("enable_designs", 0) == len(edescs), "every inserted-enable design was explored")
     for key in ("print_arg_texts_compared", "print_args_1", "print_args_2", "print_args_3", "print_sep_or_end_with_brace"):
         rep.require(not guards or rep.cov.get(key, 0) > 0, f"{key} never exercised")
     rep.require(not guards or rep.cov.get("print_statements_built", 0) == len(pcases), "every Print-argument case was processed")
@@ -1006,6 +1259,8 @@ def _task_name(t):
         return f"format:{form}:{_shape_name(w, sg)}:{specs[0]!r}..{specs[-1]!r}"
     if t[0] == "printargs":
         return "printargs:" + _case_name(t[1][0][0]) + ".." + _case_name(t[1][0][-1])
+    if t[0] == "enable":
+        return "enable:" + enable_tag(t[1][0]) + ".." + enable_tag(t[1][-1])
     return "timing:" + timing_tag(t[1][0])
 
 
@@ -1091,6 +1346,11 @@ def replay(payload):
         cases = [(tuple(tuple(x) for x in c[0]), c[1], c[2]) for c in payload["cases"]]
         out = w_printargs((cases, [tuple(v) for v in payload["values"]]))
         return [v["what"] for v in out["violations"]]
+    if kind == "enable":
+        from ..sim.driver import elaborate
+        m, sigs = build_enable(payload["desc"])
+        res, _s, _m, _e = check_enable_sequence(payload["desc"], EnRunner(elaborate(m), sigs, fresh=True), tuple(tuple(x) for x in payload["seq"]))
+        return [f"{res[0]}:{res[1]} at step {res[2]}: {res[3]}"] if res else []
     if kind == "timing":
         from ..sim.driver import elaborate
         d = payload["desc"]
